@@ -294,7 +294,8 @@ def part_lattice(ctx, res, acc):
         if sl.startswith("pmce.permitted"):
             if so != "1":
                 acc.violation("response-not-permitted-by-offer",
-                              f"the server's response contains a parameter the offer does not permit: `{ln}`",
+                              f"the server's response is not what the offer permits/requires (Spec permittedBy: server_* only as "
+                              f"requested and echoed, client_max_window_bits only if offered): `{ln}`",
                               {"kind": "line", "line": ln, "spec_line": sl, "spec": so})
             continue
         t = so.split(" ")
@@ -698,6 +699,10 @@ def replay(ctx, res, acc):
                 acc.violation("U3:offer-accept-override-not-announced" if (x[7] != "~" or x[8] != "~") else
                               ("U3:response-accept-override-not-announced" if (x[10] != "~" or x[11] != "~") else
                                "parameters-differ-without-override"), "replayed", rp)
+        if g.startswith("ok ") and ln.startswith("pmce.accept") and g.split(" ")[3] != "!":
+            sl = "pmce.permitted " + " ".join(ln.split(" ")[1:5]) + " " + g.split(" ")[3].replace(",", " ")
+            if ctx.driver.run([sl])[0] != "1":
+                acc.violation("response-not-permitted-by-offer", "replayed", rp)
         if rp.get("spec") == "raise" and g != "raise":
             acc.violation("guard-accepts-out-of-range-value", "replayed", rp)
     elif kind == "handshake":
@@ -742,5 +747,28 @@ def run(ctx):
 
 
 SELFTEST = """
-(filled in after the mutation runs; see the final section of this docstring in git history)
+Mutation self-test, 2026-09-23, scratch copy of /repo/src with VERIF_REPO, `./check C12 --tier quick` each
+(exit code; key of the first VIOLATION; its concrete replay):
+  M1  create_from_response_accept: server/client no_context_takeover swapped   1  negotiation-incompatible:server->client   pmce.neg 0 0 0 0 0 0 ~ 9 ~ 1 10 ~ (+ parameters-differ-without-override, not-lossless:d)
+  M2  WINDOW_SIZE_PERMISSIBLE_VALUES gains 8                                    1  guard-accepts-out-of-range-value          pmce.offer 1 1 0 8 (+ client-accepts-bad-response:out-of-range-parameter `server_max_window_bits=8`; window_range no longer proves)
+  M3  Response.parse keeps duplicated parameters                                1  client-accepts-bad-response:duplicated-parameter   `permessage-deflate; server_no_context_takeover; server_no_context_takeover`
+  M4  end_compress_message returns data (no [:-4])                              1  not-lossless:d   scenario d-w9-s0c0-m1-real, message #4 (tail_strip_consistent no longer proves)
+  M5  end_decompress_message does not re-append 00 00 ff ff                     1  not-lossless:d   scenario d-w9-s0c0-m1-real, message #4 (2nd compressed message of the direction)
+  M6  sendMessage sets RSV1 on continuation frames                              1  rsv1-on-continuation   scenario d-w9-s0c0-m1-real, message #2
+  M7  sendMessage ignores doNotCompress                                         1  donotcompress-sent-compressed   scenario d-w10-s1c0-m9-real, message #5
+  M8  processData accepts compressed control frames                             1  compressed-control-frame-accepted   compressed-ping@server
+  M9  client ignores an unknown extension in the response                       1  client-accepts-bad-response:unknown-extension   `x-webkit-deflate-frame, permessage-deflate`
+  M10 OfferAccept: window_bits > offer.request_max_window_bits guard dropped    1  negotiation-incompatible:server->client   pmce.neg 0 0 0 9 0 0 ~ 10 ~ ~ ~ ~
+  M11 processData accepts RSV1 on continuation frames                           1  rsv1-on-continuation-accepted   rsv1-continuation@server
+  M12 server never resets its compressor on server_no_context_takeover          1  not-lossless:d   scenario d-w10-s1c0-m9-real, message #4
+  M13 beginMessage ignores doNotCompress                                        1  donotcompress-sent-compressed   streaming message
+  M14 create_from_offer_accept: server/client window bits swapped               1  negotiation-incompatible:client->server   pmce.neg 1 1 0 0 0 0 1 10 ~ ~ ~ ~
+  M15 brotli start_decompress_message uses the wrong role's flag                1  not-lossless:r   scenario r-s0c1, message #2
+  M16 sendPreparedMessage ignores doNotCompress                                 1  send-raises:PerMessageDeflate:AttributeError   first prepared doNotCompress message
+  M17 OfferAccept.get_extension_string omits server_max_window_bits             1  response-not-permitted-by-offer   pmce.accept 0 0 0 9 0 0 ~ ~ ~
+  M18 server inflates with server_max_window_bits                               1  not-lossless:d   20000-octet message, zlib client peer
+  H1  harmless: get_extension_string via "; ".join, payload1 + payload2, extra local in end_compress_message   0  (silent)
+  H2  harmless: ResponseAccept guards reordered / rewritten                     0  (silent)
+The first run of M2 exposed a harness fault (scenarios were built from the mutated table and crashed the independent
+zlib peer -> exit 2); lattice and scenarios are now built from the Spec's ranges (SPEC_WINDOW / SPEC_MEM).
 """
